@@ -428,6 +428,13 @@ def collapse_one(
         new_ents.append(new_ent)
         inst.ent_ids[old_ent.id] = new_ent.id
         id_to_ent[old_ent.id] = new_ent
+        # Constructing the copy already gave it a node ID unique in this map. Record old -> new,
+        # so that references to this node are remapped to its copy.
+        if 'nodeid' in old_ent:
+            try:
+                inst.node_ids[int(old_ent['nodeid'])] = int(new_ent['nodeid'])
+            except ValueError:
+                pass
 
         if visgroup is not False:
             new_ent.visgroup_ids = {
@@ -524,6 +531,9 @@ def collapse_one(
                 elif (classname, key) not in _UNKNOWN_KV:
                     LOGGER.warning('angle_pitch should only be applied to pitch, not {}.{}', classname, key)
                     _UNKNOWN_KV.add((classname, key))
+                continue
+            # The node's own ID was made unique when it was copied, and is in inst.node_ids already.
+            elif kv.type is ValueTypes.TARG_NODE_SOURCE and folded == 'nodeid':
                 continue
             # Instance fixup commands shouldn't exist here.
             elif kv.type is ValueTypes.INST_VAR_REP:
